@@ -411,6 +411,72 @@ def g5(prog, rep):
 
 
 
+def g7_schedule(prog, rep):
+    """The SSE2 SHA-256 transform computes its whole message schedule: every word W[t] a round reads has been stored by this call
+    before the read (the first sixteen from the block, the rest by the schedule steps), and the sixty-four rounds read W[0..63].
+    Decided by walking the function with its loop counter known (sa/finite.py): stores through _mm_storeu_si128(&W[k]) mark
+    W[k..k+3], reads of W[...] are checked against the marks in execution order.  (The library's self-test runs the portable
+    transform on the same scratch array first, so schedule words the SSE2 code forgets to compute are found there, correct,
+    left over -- the self-test cannot see this.)"""
+    from .. import finite
+    up = "alg/sha256_sse2.c"
+    if up not in prog.units:
+        return
+    u = prog.unit(up)
+    f = u.func("SHA256_Transform_sse2")
+    if f is None:
+        raise cdb.AnalysisBroken("anchor missing: SHA256_Transform_sse2")
+    Wp = [p for p in f.params if p["name"] == "W"]
+    if not Wp:
+        raise cdb.AnalysisBroken("SHA256_Transform_sse2 no longer has the schedule parameter W")
+    W = ("v", "W", Wp[0]["id"])
+    tracked = {}
+    for e in f.all_elems():
+        if e.cls == "DeclStmt":
+            for d in e.decls or []:
+                t = u.types.get(d.get("ty")) or {}
+                if isinstance(d, dict) and d.get("kind") == "local" and t.get("kind") == "int":
+                    tracked[("v", d["name"], d["id"])] = (bool(t.get("signed", True)), 8 * (t.get("size") or 4))
+    written = set()
+    reads = []
+    early = []
+    unknown = []
+
+    def watch(e, env):
+        if e.cls == "CallExpr" and e.callee == "_mm_storeu_si128" and e.arg(0) is not None:
+            a = norm(e.arg(0))
+            if a[0] == "&" and a[1][0] == "[]" and a[1][1] == W:
+                k = finite.ev(a[1][2], env)
+                if isinstance(k, int):
+                    written.update(range(k, k + 4))
+                else:
+                    unknown.append(e)
+        elif e.cls == "ImplicitCastExpr" and e.op == "LValueToRValue":
+            k0 = e.kid(0).strip() if e.kid(0) is not None else None
+            if k0 is not None and k0.cls == "ArraySubscriptExpr" and norm(k0.kid(0)) == W:
+                k = finite.ev(norm(k0.kid(1)), env)
+                if isinstance(k, int):
+                    reads.append(k)
+                    if k not in written:
+                        early.append((k, e))
+                else:
+                    unknown.append(e)
+        elif e.is_assign and norm(e.kid(0))[0] == "[]" and norm(e.kid(0))[1] == W:
+            k = finite.ev(norm(e.kid(0))[2], env)
+            if isinstance(k, int):
+                written.add(k)
+    Wk = finite.Walker(f, tracked, lambda e: False, watch=watch, limit=200000)
+    try:
+        Wk.run(f.entry, 0, {k: None for k in tracked})
+    except finite.Budget:
+        raise cdb.AnalysisBroken("SHA256_Transform_sse2: the walk did not finish")
+    ok = not early and not unknown and sorted(set(reads)) == list(range(64)) and len(reads) == 64
+    rep.check(ok, "G7-schedule", "SHA256_Transform_sse2 computes every schedule word before the round that uses it", f.loc,
+              ("W[%d] is read at %s before this call has stored it" % (early[0][0], early[0][1].loc)) if early else
+              ("schedule words read: %d distinct of %d reads (64 expected)%s" % (len(set(reads)), len(reads), "; an index could not be evaluated" if unknown else "")),
+              function=f.name, construct="schedule")
+
+
 def g6_cursor(prog, rep):
     """CRC32C_Update_SSE42 consumes its input strictly in order: every data operand of a crc32 instruction is read at the
     running cursor (buf[i + k]), and between two advances of the cursor the operands tile exactly the bytes the advance
@@ -504,6 +570,7 @@ def run(tier):
             g4(prog, rep, tier)
             g5(prog, rep)
             g6_cursor(prog, rep)
+            g7_schedule(prog, rep)
             # the portable CRC code is the other half of every SSE4.2 result (heads, tails, short updates): its table
             # generator and step structure (C01's K5) are part of "the same function"
             from . import c01
